@@ -1,6 +1,1722 @@
-//! C15 — not built yet.
-use crate::report::{Ctx, Reporter};
+//! C15 — actix-multipart parsing is exact, segmentation-independent and always terminates;
+//! malformed / truncated bodies produce an error rather than a hang or a silently merged field;
+//! bounded buffering.
+//!
+//! Obs: the real `Multipart` (through `Multipart::new`, and through the `FromRequest` extractor
+//! with `MultipartConfig::buffer_limit` for the small limits) fed by a *scripted chunk stream* —
+//! exactly the scheduled chunks, `Pending` + explicit wake between them where the schedule says so,
+//! then `None` (or `Err(Incomplete)`).  The consumer future (reads every field to its end, or skips /
+//! drops fields per the case's mode vector; stops at the first error; every loop capped) is driven by
+//! `world::exec::Driven`, i.e. polled only when its waker fired.  A **hang** is therefore a logical
+//! fact: the consumer is `Pending`, its waker has not fired, and the stream has nobody to wake
+//! (it already returned `None`, or it was never asked).
+//!
+//! Oracle: ground truth by construction (`refmodel::multipart_gen` *encodes* a field list).  A case
+//! carries one or more acceptable alternatives (field list + expectation Complete / MustError /
+//! Either); the observation must satisfy one of them.  In every alternative the observed fields
+//! must be a prefix of the true field list (headers as a multiset, name, content type), a field that
+//! ended cleanly must have exactly the true content, an unfinished field a prefix of it.  Universal
+//! clauses: no hang, no livelock (poll cap), no panic, pulled − delivered-offset ≤ limit + largest
+//! chunk + syntax gap.
 
-pub fn run(_ctx: &Ctx, rep: &mut Reporter) {
-    rep.inconclusive("C15 monitor not built");
+use std::{
+    cell::RefCell,
+    collections::VecDeque,
+    pin::Pin,
+    rc::Rc,
+    task::{Context, Poll, Waker},
+};
+
+use actix_multipart::{Multipart, MultipartConfig, MultipartError};
+use actix_web::{
+    dev::Payload,
+    error::PayloadError,
+    http::header::{HeaderMap, HeaderValue, CONTENT_TYPE},
+    test::TestRequest,
+    FromRequest,
+};
+use bytes::Bytes;
+use futures_core::Stream;
+use futures_util::StreamExt as _;
+use serde_json::{json, Value};
+
+use crate::{
+    refmodel::multipart_gen::{self as mg, Body, Encoded, Part, PartOpts, Span},
+    report::{guard, panic_site, Ctx, Reporter},
+    util::{esc_short, hex, unhex, Rng},
+    world::exec::Driven,
+};
+
+const DEFAULT_LIMIT: usize = 65_536;
+const MAX_FIELDS: usize = 64;
+
+// ------------------------------------------------------------------------------------------------
+// scripted chunk stream + observation log (one shared cell; single-threaded)
+
+#[derive(Clone, Debug)]
+enum Item {
+    Chunk(Bytes),
+    Eof,
+    Err,
+}
+
+#[derive(Clone, Debug, Default, PartialEq, Eq)]
+struct ObsField {
+    headers: Vec<(String, Vec<u8>)>,
+    name: Option<String>,
+    ctype: Option<String>,
+    content: Vec<u8>,
+    ended: bool,
+    /// consumer mode for this field: 0 read to the end, 1 drop at once, 2 read one chunk then drop
+    mode: u8,
+    chunks: u64,
+    empty_chunks: u64,
+}
+
+#[derive(Clone, Debug, PartialEq, Eq)]
+enum End {
+    /// consumer future has not finished
+    Open,
+    Clean,
+    Error { kind: String, in_field: bool },
+    /// a consumer-side cap was hit (fields or chunks): the parser keeps producing
+    Cap(&'static str),
+}
+
+struct Shared {
+    items: VecDeque<(Item, bool)>,
+    armed: bool,
+    waker: Option<Waker>,
+    want_wake: bool,
+    pulled: usize,
+    max_chunk: usize,
+    ended: bool,
+    polls_after_end: u64,
+    stream_polls: u64,
+    // observation
+    fields: Vec<ObsField>,
+    end: End,
+    delivered_off: usize,
+    max_buffered: usize,
+    spans: Vec<Span>,
+    close_end: usize,
+    content_cap: usize,
+}
+
+struct ScriptStream(Rc<RefCell<Shared>>);
+
+impl Stream for ScriptStream {
+    type Item = Result<Bytes, PayloadError>;
+    fn poll_next(self: Pin<&mut Self>, cx: &mut Context<'_>) -> Poll<Option<Self::Item>> {
+        let mut s = self.0.borrow_mut();
+        s.stream_polls += 1;
+        if s.ended {
+            s.polls_after_end += 1;
+            return Poll::Ready(None);
+        }
+        let Some((_, pend)) = s.items.front() else {
+            s.ended = true;
+            return Poll::Ready(None);
+        };
+        if *pend && !s.armed {
+            s.waker = Some(cx.waker().clone());
+            s.want_wake = true;
+            return Poll::Pending;
+        }
+        s.armed = false;
+        s.want_wake = false;
+        let (it, _) = s.items.pop_front().unwrap();
+        match it {
+            Item::Chunk(b) => {
+                s.pulled += b.len();
+                s.max_chunk = s.max_chunk.max(b.len());
+                let buffered = s.pulled.saturating_sub(s.delivered_off);
+                s.max_buffered = s.max_buffered.max(buffered);
+                Poll::Ready(Some(Ok(b)))
+            }
+            Item::Eof => {
+                s.ended = true;
+                Poll::Ready(None)
+            }
+            Item::Err => {
+                s.ended = true;
+                Poll::Ready(Some(Err(PayloadError::Incomplete(None))))
+            }
+        }
+    }
+}
+
+fn err_kind(e: &MultipartError) -> String {
+    match e {
+        MultipartError::ContentTypeMissing => "ContentTypeMissing".into(),
+        MultipartError::ContentTypeParse => "ContentTypeParse".into(),
+        MultipartError::ContentTypeIncompatible => "ContentTypeIncompatible".into(),
+        MultipartError::BoundaryMissing => "BoundaryMissing".into(),
+        MultipartError::ContentDispositionMissing => "ContentDispositionMissing".into(),
+        MultipartError::ContentDispositionNameMissing => "ContentDispositionNameMissing".into(),
+        MultipartError::Nested => "Nested".into(),
+        MultipartError::Incomplete => "Incomplete".into(),
+        MultipartError::Parse(_) => "Parse".into(),
+        MultipartError::Payload(PayloadError::Overflow) => "Overflow".into(),
+        MultipartError::Payload(PayloadError::Incomplete(_)) => "PayloadIncomplete".into(),
+        MultipartError::Payload(_) => "Payload".into(),
+        MultipartError::NotConsumed => "NotConsumed".into(),
+        other => format!("{other:?}").split(['(', ' ', '{']).next().unwrap_or("other").to_string(),
+    }
+}
+
+async fn consume(mut mp: Multipart, sh: Rc<RefCell<Shared>>, modes: Vec<u8>, chunk_cap: u64) {
+    let mut total_chunks = 0u64;
+    loop {
+        let nf = sh.borrow().fields.len();
+        if nf >= MAX_FIELDS {
+            sh.borrow_mut().end = End::Cap("fields");
+            return;
+        }
+        match mp.next().await {
+            None => {
+                let mut s = sh.borrow_mut();
+                s.end = End::Clean;
+                let ce = s.close_end;
+                s.delivered_off = s.delivered_off.max(ce);
+                return;
+            }
+            Some(Err(e)) => {
+                sh.borrow_mut().end = End::Error { kind: err_kind(&e), in_field: false };
+                return;
+            }
+            Some(Ok(mut field)) => {
+                let mode = modes.get(nf).copied().unwrap_or(0);
+                {
+                    let mut headers: Vec<(String, Vec<u8>)> =
+                        field.headers().iter().map(|(n, v)| (n.as_str().to_ascii_lowercase(), v.as_bytes().to_vec())).collect();
+                    headers.sort();
+                    let of = ObsField {
+                        headers,
+                        name: field.name().map(|s| s.to_string()),
+                        ctype: field.content_type().map(|m| m.essence_str().to_string()),
+                        mode,
+                        ..Default::default()
+                    };
+                    let mut s = sh.borrow_mut();
+                    if let Some(sp) = s.spans.get(nf).copied() {
+                        s.delivered_off = s.delivered_off.max(sp.content_start);
+                    }
+                    s.fields.push(of);
+                }
+                if mode == 1 {
+                    drop(field);
+                    continue;
+                }
+                loop {
+                    total_chunks += 1;
+                    if total_chunks > chunk_cap {
+                        sh.borrow_mut().end = End::Cap("chunks");
+                        return;
+                    }
+                    match field.next().await {
+                        None => {
+                            let mut s = sh.borrow_mut();
+                            s.fields[nf].ended = true;
+                            if let Some(sp) = s.spans.get(nf).copied() {
+                                s.delivered_off = s.delivered_off.max(sp.content_end);
+                            }
+                            break;
+                        }
+                        Some(Ok(b)) => {
+                            let mut s = sh.borrow_mut();
+                            let cap = s.content_cap;
+                            let sp = s.spans.get(nf).copied();
+                            let f = &mut s.fields[nf];
+                            f.chunks += 1;
+                            if b.is_empty() {
+                                f.empty_chunks += 1;
+                            }
+                            if f.content.len() + b.len() > cap {
+                                drop(s);
+                                sh.borrow_mut().end = End::Cap("content");
+                                return;
+                            }
+                            f.content.extend_from_slice(&b);
+                            let n = f.content.len();
+                            if let Some(sp) = sp {
+                                let off = (sp.content_start + n).min(sp.content_end);
+                                s.delivered_off = s.delivered_off.max(off);
+                            }
+                            if mode == 2 {
+                                break;
+                            }
+                        }
+                        Some(Err(e)) => {
+                            sh.borrow_mut().end = End::Error { kind: err_kind(&e), in_field: true };
+                            return;
+                        }
+                    }
+                }
+                drop(field);
+            }
+        }
+    }
+}
+
+// ------------------------------------------------------------------------------------------------
+// cases
+
+#[derive(Clone, Debug, PartialEq, Eq)]
+struct ExpPart {
+    headers: Vec<(String, Vec<u8>)>,
+    name: Option<String>,
+    ctype: Option<String>,
+    content: Vec<u8>,
+}
+
+#[derive(Clone, Copy, Debug, PartialEq, Eq)]
+enum Expect {
+    Complete,
+    MustError,
+    Either,
+}
+
+#[derive(Clone, Debug)]
+struct Alt {
+    parts: Vec<ExpPart>,
+    expect: Expect,
+}
+
+#[derive(Clone, Debug)]
+struct Case {
+    ct: String,
+    body: Vec<u8>,
+    /// chunk sizes; the sum is body.len(); a 0 is an empty chunk
+    sizes: Vec<usize>,
+    /// `Pending` (+ wake) before chunk i; last entry: before the end item
+    pend: Vec<bool>,
+    end_err: bool,
+    limit: Option<usize>,
+    modes: Vec<u8>,
+    alts: Vec<Alt>,
+    overflow_ok: bool,
+    spans: Vec<Span>,
+    close_end: usize,
+    gap: usize,
+    /// stable, seed-independent description of the input class (signature material)
+    tag: String,
+    /// where the body ends relative to the structure of the untruncated body
+    end_label: String,
+}
+
+#[derive(Debug)]
+struct Obs {
+    fields: Vec<ObsField>,
+    end: End,
+    hang: bool,
+    stream_ended: bool,
+    livelock: bool,
+    polls: u64,
+    pulled: usize,
+    max_chunk: usize,
+    max_buffered: usize,
+    polls_after_end: u64,
+}
+
+fn make_multipart(ct: &str, limit: Option<usize>, stream: ScriptStream) -> Multipart {
+    match limit {
+        None => {
+            let mut h = HeaderMap::new();
+            if let Ok(v) = HeaderValue::from_str(ct) {
+                h.insert(CONTENT_TYPE, v);
+            }
+            Multipart::new(&h, stream)
+        }
+        Some(l) => {
+            let req = TestRequest::default()
+                .insert_header((CONTENT_TYPE, ct.to_string()))
+                .app_data(MultipartConfig::default().buffer_limit(l))
+                .to_http_request();
+            let boxed: Pin<Box<dyn Stream<Item = Result<Bytes, PayloadError>>>> = Box::pin(stream);
+            let mut pl = Payload::from(boxed);
+            Multipart::from_request(&req, &mut pl).into_inner().expect("extractor is infallible")
+        }
+    }
+}
+
+fn run_case(c: &Case) -> Obs {
+    let mut items: VecDeque<(Item, bool)> = VecDeque::with_capacity(c.sizes.len() + 1);
+    let mut at = 0;
+    let whole = Bytes::copy_from_slice(&c.body);
+    for (i, &n) in c.sizes.iter().enumerate() {
+        let end = (at + n).min(whole.len());
+        items.push_back((Item::Chunk(whole.slice(at..end)), c.pend.get(i).copied().unwrap_or(true)));
+        at = end;
+    }
+    if at < whole.len() {
+        items.push_back((Item::Chunk(whole.slice(at..)), true));
+    }
+    let pend_end = c.pend.get(c.sizes.len()).copied().unwrap_or(true);
+    items.push_back((if c.end_err { Item::Err } else { Item::Eof }, pend_end));
+    let nitems = items.len() as u64;
+    let sh = Rc::new(RefCell::new(Shared {
+        items,
+        armed: false,
+        waker: None,
+        want_wake: false,
+        pulled: 0,
+        max_chunk: 0,
+        ended: false,
+        polls_after_end: 0,
+        stream_polls: 0,
+        fields: vec![],
+        end: End::Open,
+        delivered_off: 0,
+        max_buffered: 0,
+        spans: c.spans.clone(),
+        close_end: c.close_end,
+        content_cap: c.body.len() + 64,
+    }));
+    let mp = make_multipart(&c.ct, c.limit, ScriptStream(sh.clone()));
+    let chunk_cap = 4 * (c.body.len() as u64 + nitems) + 64;
+    let mut d = Driven::new(consume(mp, sh.clone(), c.modes.clone(), chunk_cap));
+    let poll_cap = 8 * (c.body.len() as u64 + nitems) + 256;
+    let (mut hang, mut livelock) = (false, false);
+    loop {
+        if d.done() {
+            break;
+        }
+        if d.poll_if_woken() {
+            if d.polls > poll_cap {
+                livelock = true;
+                break;
+            }
+            continue;
+        }
+        // consumer Pending and not woken: the only thing the environment can do is make the
+        // stream ready — and only if the stream was asked and stored a waker.
+        let w = {
+            let mut s = sh.borrow_mut();
+            if s.want_wake {
+                s.want_wake = false;
+                s.armed = true;
+                s.waker.take()
+            } else {
+                None
+            }
+        };
+        match w {
+            Some(w) => w.wake(),
+            None => {
+                hang = true;
+                break;
+            }
+        }
+    }
+    let polls = d.polls;
+    drop(d);
+    let s = sh.borrow();
+    Obs {
+        fields: s.fields.clone(),
+        end: s.end.clone(),
+        hang,
+        stream_ended: s.ended,
+        livelock,
+        polls,
+        pulled: s.pulled,
+        max_chunk: s.max_chunk,
+        max_buffered: s.max_buffered,
+        polls_after_end: s.polls_after_end,
+    }
+}
+
+struct Verdict {
+    class: &'static str,
+    sig: String,
+    detail: String,
+}
+
+fn class_of_content(c: &[u8]) -> &'static str {
+    if c.is_empty() {
+        "empty"
+    } else if c.ends_with(b"\r\n--") {
+        "ends-crlf--"
+    } else if c.ends_with(b"\r\n") {
+        "ends-crlf"
+    } else if c.ends_with(b"\r") {
+        "ends-cr"
+    } else if c.ends_with(b"--") {
+        "ends--"
+    } else if c.windows(4).any(|w| w == b"\r\n--") {
+        "has-crlf--"
+    } else if c.contains(&b'\r') {
+        "has-cr"
+    } else {
+        "plain"
+    }
+}
+
+/// Does `obs` satisfy alternative `alt`?  `None` = yes.
+fn check_alt(c: &Case, alt: &Alt, o: &Obs) -> Option<Verdict> {
+    let v = |class: &'static str, what: String, detail: String| Some(Verdict { class, sig: format!("{}|{}|{}", what, c.tag, c.end_label), detail });
+    if o.fields.len() > alt.parts.len() {
+        let f = &o.fields[alt.parts.len()];
+        return v(
+            "extra-field",
+            format!("after-{}-true-fields", alt.parts.len()),
+            format!("the parser delivered field #{} (name {:?}, headers {:?}) but the body defines only {} field(s)", alt.parts.len(), f.name, show_headers(&f.headers), alt.parts.len()),
+        );
+    }
+    for (i, f) in o.fields.iter().enumerate() {
+        let e = &alt.parts[i];
+        if f.headers != e.headers {
+            return v("field-headers", format!("field{i}"), format!("field #{i}: headers {:?}, expected {:?}", show_headers(&f.headers), show_headers(&e.headers)));
+        }
+        if f.name != e.name {
+            return v("field-name", format!("field{i}"), format!("field #{i}: name {:?}, expected {:?}", f.name, e.name));
+        }
+        if f.ctype != e.ctype {
+            return v("field-content-type", format!("field{i}"), format!("field #{i}: content type {:?}, expected {:?}", f.ctype, e.ctype));
+        }
+        let cc = class_of_content(&e.content);
+        if !e.content.starts_with(&f.content) {
+            let at = f.content.iter().zip(e.content.iter()).take_while(|(a, b)| a == b).count();
+            return v(
+                "field-content",
+                format!("{cc}|not-a-prefix"),
+                format!("field #{i} ({:?}): delivered {} bytes that are not a prefix of the true {}-byte content; first difference at {} : delivered …{} true …{}", e.name, f.content.len(), e.content.len(), at, esc_short(&f.content[at.saturating_sub(8)..], 48), esc_short(&e.content[at.saturating_sub(8).min(e.content.len())..], 48)),
+            );
+        }
+        if f.ended && f.mode == 0 && f.content.len() != e.content.len() {
+            return v(
+                "field-truncated-silently",
+                cc.to_string(),
+                format!("field #{i} ({:?}) ended cleanly after {} of {} content bytes; missing tail {}", e.name, f.content.len(), e.content.len(), esc_short(&e.content[f.content.len()..], 48)),
+            );
+        }
+        if !f.ended && f.mode == 0 && i + 1 < o.fields.len() {
+            return v("field-order", format!("field{i}"), format!("field #{i} never ended but field #{} was delivered", i + 1));
+        }
+    }
+    match (&o.end, alt.expect) {
+        (End::Clean, Expect::Complete | Expect::Either) => {
+            if o.fields.len() != alt.parts.len() {
+                return v(
+                    "missing-field",
+                    format!("{}-of-{}", o.fields.len(), alt.parts.len()),
+                    format!("the multipart stream ended cleanly after {} field(s); the body defines {}", o.fields.len(), alt.parts.len()),
+                );
+            }
+            None
+        }
+        (End::Clean, Expect::MustError) => v(
+            "no-error",
+            format!("{}-fields-then-clean-end", o.fields.len()),
+            format!("truncated / malformed body accepted: clean end after {} field(s) (all-ended={})", o.fields.len(), o.fields.iter().all(|f| f.ended || f.mode != 0)),
+        ),
+        (End::Error { kind, in_field }, Expect::Complete) => {
+            if kind == "Overflow" && c.overflow_ok {
+                return None;
+            }
+            v(
+                "spurious-error",
+                format!("{kind}|in_field={in_field}|after-{}-fields", o.fields.len()),
+                format!("well-formed body rejected with {kind} (in field stream: {in_field}) after {} field(s)", o.fields.len()),
+            )
+        }
+        (End::Error { .. }, Expect::MustError | Expect::Either) => None,
+        (End::Open | End::Cap(_), _) => None, // judged by the universal clauses
+    }
+}
+
+fn show_headers(h: &[(String, Vec<u8>)]) -> Vec<String> {
+    h.iter().map(|(n, v)| format!("{n}: {}", esc_short(v, 60))).collect()
+}
+
+fn judge(c: &Case, o: &Obs) -> Option<Verdict> {
+    let fin = |class: &'static str, what: String, detail: String| Some(Verdict { class, sig: format!("{}|{}|{}", what, c.tag, c.end_label), detail });
+    if o.hang {
+        let state = match o.fields.last() {
+            Some(f) if !f.ended && f.mode == 0 => "in-field",
+            _ => "in-multipart",
+        };
+        return fin(
+            "hang",
+            format!("{}|{}", if o.stream_ended { "after-stream-end" } else { "stream-not-asked" }, state),
+            format!(
+                "consumer is Pending, its waker never fired and the body stream {} — nobody will ever wake it ({} fields so far, {} bytes pulled of {}, {} polls)",
+                if o.stream_ended { "already returned its end" } else { "holds data but was not polled (no waker stored)" },
+                o.fields.len(),
+                o.pulled,
+                c.body.len(),
+                o.polls
+            ),
+        );
+    }
+    if o.livelock {
+        return fin("no-termination", "poll-cap".into(), format!("consumer still not finished after {} polls (self-waking) on a {}-byte body", o.polls, c.body.len()));
+    }
+    if let End::Cap(what) = &o.end {
+        return fin("no-termination", format!("cap-{what}"), format!("consumer cap '{what}' hit: the parser keeps producing ({} fields, {} bytes pulled of {})", o.fields.len(), o.pulled, c.body.len()));
+    }
+    if o.end == End::Open {
+        return fin("no-termination", "open".into(), "consumer future neither finished nor hung".into());
+    }
+    let mut first = None;
+    let mut ok = false;
+    for alt in &c.alts {
+        match check_alt(c, alt, o) {
+            None => {
+                ok = true;
+                break;
+            }
+            Some(v) => {
+                if first.is_none() {
+                    first = Some(v);
+                }
+            }
+        }
+    }
+    if !ok {
+        return first;
+    }
+    // bounded buffering (only meaningful when every field is read to its end: skipped content is
+    // consumed inside the parser and never shows up as delivered)
+    if c.modes.iter().all(|m| *m == 0) {
+        let limit = c.limit.unwrap_or(DEFAULT_LIMIT);
+        let bound = limit + o.max_chunk + c.gap;
+        if o.max_buffered > bound {
+            return fin(
+                "buffer-bound",
+                format!("limit={limit}"),
+                format!("pulled − delivered reached {} bytes; bound is limit {} + largest chunk {} + syntax gap {} = {}", o.max_buffered, limit, o.max_chunk, c.gap, bound),
+            );
+        }
+    }
+    None
+}
+
+// ---- replay (self-contained: input, schedule, ground truth)
+
+fn part_json(p: &ExpPart) -> Value {
+    json!({
+        "headers": p.headers.iter().map(|(n, v)| json!([n, hex(v)])).collect::<Vec<_>>(),
+        "name": p.name, "ctype": p.ctype, "content": hex(&p.content),
+    })
+}
+
+fn part_from(v: &Value) -> ExpPart {
+    ExpPart {
+        headers: v["headers"].as_array().map(|a| a.iter().map(|h| (h[0].as_str().unwrap_or("").to_string(), unhex(h[1].as_str().unwrap_or("")))).collect()).unwrap_or_default(),
+        name: v["name"].as_str().map(|s| s.to_string()),
+        ctype: v["ctype"].as_str().map(|s| s.to_string()),
+        content: unhex(v["content"].as_str().unwrap_or("")),
+    }
+}
+
+fn replay_json(c: &Case) -> Value {
+    json!({
+        "ct": c.ct, "body": hex(&c.body), "body_preview": esc_short(&c.body, 300),
+        "sizes": c.sizes, "pend": c.pend.iter().map(|b| *b as u8).collect::<Vec<_>>(), "end_err": c.end_err,
+        "limit": c.limit, "modes": c.modes, "overflow_ok": c.overflow_ok,
+        "alts": c.alts.iter().map(|a| json!({"expect": format!("{:?}", a.expect), "parts": a.parts.iter().map(part_json).collect::<Vec<_>>()})).collect::<Vec<_>>(),
+        "spans": c.spans.iter().map(|s| json!([s.hdr_start, s.content_start, s.content_end])).collect::<Vec<_>>(),
+        "close_end": c.close_end, "gap": c.gap, "tag": c.tag, "end_label": c.end_label,
+    })
+}
+
+fn case_from(v: &Value) -> Case {
+    let us = |x: &Value| x.as_u64().unwrap_or(0) as usize;
+    Case {
+        ct: v["ct"].as_str().unwrap_or("").to_string(),
+        body: unhex(v["body"].as_str().unwrap_or("")),
+        sizes: v["sizes"].as_array().map(|a| a.iter().map(us).collect()).unwrap_or_default(),
+        pend: v["pend"].as_array().map(|a| a.iter().map(|x| x.as_u64() == Some(1)).collect()).unwrap_or_default(),
+        end_err: v["end_err"].as_bool().unwrap_or(false),
+        limit: v["limit"].as_u64().map(|x| x as usize),
+        modes: v["modes"].as_array().map(|a| a.iter().map(|x| x.as_u64().unwrap_or(0) as u8).collect()).unwrap_or_default(),
+        overflow_ok: v["overflow_ok"].as_bool().unwrap_or(false),
+        alts: v["alts"]
+            .as_array()
+            .map(|a| {
+                a.iter()
+                    .map(|x| Alt {
+                        expect: match x["expect"].as_str() {
+                            Some("Complete") => Expect::Complete,
+                            Some("MustError") => Expect::MustError,
+                            _ => Expect::Either,
+                        },
+                        parts: x["parts"].as_array().map(|p| p.iter().map(part_from).collect()).unwrap_or_default(),
+                    })
+                    .collect()
+            })
+            .unwrap_or_default(),
+        spans: v["spans"].as_array().map(|a| a.iter().map(|s| Span { hdr_start: us(&s[0]), content_start: us(&s[1]), content_end: us(&s[2]) }).collect()).unwrap_or_default(),
+        close_end: us(&v["close_end"]),
+        gap: us(&v["gap"]),
+        tag: v["tag"].as_str().unwrap_or("").to_string(),
+        end_label: v["end_label"].as_str().unwrap_or("").to_string(),
+    }
+}
+
+/// Run + judge one case; returns the observation for evidence bookkeeping.
+fn eval(c: &Case, rep: &mut Reporter) -> Option<Obs> {
+    rep.eval();
+    let o = match guard(|| run_case(c)) {
+        Ok(o) => o,
+        Err(p) => {
+            rep.violation("panic", &panic_site(&p), &format!("panic while parsing: {p} | tag={} end={}", c.tag, c.end_label), replay_json(c));
+            return None;
+        }
+    };
+    rep.count("polls", o.polls);
+    rep.count("fields_observed", o.fields.len() as u64);
+    rep.count("field_chunks_observed", o.fields.iter().map(|f| f.chunks).sum());
+    rep.count("empty_field_chunks_observed", o.fields.iter().map(|f| f.empty_chunks).sum());
+    rep.count("stream_polled_after_end", o.polls_after_end);
+    rep.max(&format!("buffered_bytes@limit={}", c.limit.unwrap_or(DEFAULT_LIMIT)), o.max_buffered as u64);
+    match &o.end {
+        End::Clean => rep.count("end:clean", 1),
+        End::Error { kind, in_field } => rep.count(&format!("end:error:{kind}:{}", if *in_field { "field" } else { "multipart" }), 1),
+        End::Open => rep.count("end:open", 1),
+        End::Cap(w) => rep.count(&format!("end:cap:{w}"), 1),
+    }
+    if o.hang {
+        rep.count("hangs", 1);
+    }
+    if let Some(v) = judge(c, &o) {
+        let detail = format!(
+            "{} | ct={} limit={:?} chunks={:?} pend={:?} end={} modes={:?} body({} bytes)={}",
+            v.detail,
+            c.ct,
+            c.limit,
+            &c.sizes[..c.sizes.len().min(24)],
+            c.pend.iter().take(24).map(|b| *b as u8).collect::<Vec<_>>(),
+            if c.end_err { "Err(Incomplete)" } else { "None" },
+            c.modes,
+            c.body.len(),
+            esc_short(&c.body, 240)
+        );
+        rep.violation(v.class, &v.sig, &detail, replay_json(c));
+    }
+    Some(o)
+}
+
+// ------------------------------------------------------------------------------------------------
+// ground truth for a generated body
+
+#[derive(Clone)]
+struct Base {
+    ct: String,
+    enc: Encoded,
+    parts: Vec<ExpPart>,
+    classes: Vec<&'static str>,
+    blen: usize,
+    /// largest syntactic unit the parser has to hold at once
+    required: usize,
+    gap: usize,
+    tag: String,
+}
+
+fn exp_part(p: &Part) -> ExpPart {
+    let mut headers: Vec<(String, Vec<u8>)> = p.headers.iter().map(|(n, _, v)| (n.to_ascii_lowercase(), v.as_bytes().to_vec())).collect();
+    headers.sort();
+    ExpPart { headers, name: p.name.clone(), ctype: p.content_type.clone(), content: p.content.clone() }
+}
+
+fn base_of(b: &Body, label: &str) -> Base {
+    let enc = mg::encode(b);
+    let blen = b.boundary.len();
+    let mut required = blen + 6;
+    // preamble lines (split at LF) and the first dash-boundary line
+    let head = &enc.bytes[..enc.first_boundary];
+    let mut start = 0;
+    for (i, ch) in head.iter().enumerate() {
+        if *ch == b'\n' {
+            required = required.max(i + 1 - start);
+            start = i + 1;
+        }
+    }
+    required = required.max(head.len() - start + blen + 6);
+    let mut gap = enc.spans.first().map(|s| s.content_start).unwrap_or(enc.bytes.len());
+    for (i, s) in enc.spans.iter().enumerate() {
+        required = required.max(s.content_start - s.hdr_start);
+        let next = enc.spans.get(i + 1).map(|n| n.content_start).unwrap_or(enc.bytes.len());
+        gap = gap.max(next - s.content_end);
+    }
+    let classes: Vec<&'static str> = b.parts.iter().map(|p| p.class).collect();
+    let tag = format!(
+        "{label}|{}|n{}|b{}|{}",
+        b.subtype,
+        b.parts.len(),
+        match blen {
+            1 => "1",
+            2..=6 => "s",
+            7..=59 => "m",
+            _ => "l",
+        },
+        {
+            let mut cs: Vec<&str> = classes.clone();
+            cs.sort_unstable();
+            cs.dedup();
+            cs.join("+")
+        }
+    );
+    Base { ct: mg::content_type_header(b), parts: b.parts.iter().map(exp_part).collect(), enc, classes, blen, required, gap, tag }
+}
+
+/// Where offset `p` of the untruncated body lies relative to the structure, plus the state of the
+/// `CR LF - -` lookahead window just before it.
+fn label(b: &Base, p: usize) -> String {
+    let e = &b.enc;
+    let bytes = &e.bytes;
+    let delim = |k: usize| -> String {
+        // k = offset inside CRLF--B<after>
+        if k < 4 {
+            format!("d{k}")
+        } else if k < 4 + b.blen {
+            if b.blen == 1 {
+                "db".into()
+            } else if k == 4 {
+                "db-first".into()
+            } else if k == 3 + b.blen {
+                "db-last".into()
+            } else {
+                "db-mid".into()
+            }
+        } else {
+            format!("da+{}", (k - 4 - b.blen).min(5))
+        }
+    };
+    let region = if p >= bytes.len() {
+        "end".to_string()
+    } else if p < e.first_boundary {
+        "pre".to_string()
+    } else if e.spans.is_empty() || p < e.spans[0].hdr_start {
+        format!("f{}", delim(p - e.first_boundary + 2))
+    } else {
+        let mut r = String::new();
+        for (i, s) in e.spans.iter().enumerate() {
+            let next_hdr = e.spans.get(i + 1).map(|n| n.hdr_start).unwrap_or(usize::MAX);
+            if p < s.content_start {
+                r = if p + 4 >= s.content_start { format!("hdr-end+{}", p + 4 - s.content_start) } else { "hdr".into() };
+                break;
+            }
+            if p < s.content_end {
+                let (a, z) = (p - s.content_start, s.content_end - p);
+                r = if a < 4 {
+                    format!("c+{a}")
+                } else if z <= 4 {
+                    format!("c-{z}")
+                } else {
+                    "c".into()
+                };
+                break;
+            }
+            if p < next_hdr {
+                if i + 1 == e.spans.len() && p >= e.close_end + 2 {
+                    r = "epi".into();
+                } else {
+                    r = delim(p - s.content_end);
+                    if i + 1 == e.spans.len() {
+                        r.push_str("/close");
+                    }
+                }
+                break;
+            }
+        }
+        r
+    };
+    let head = &bytes[..p.min(bytes.len())];
+    let tail = if head.ends_with(b"\r\n--") {
+        "~crlf--"
+    } else if head.ends_with(b"\r\n-") {
+        "~crlf-"
+    } else if head.ends_with(b"\r\n") {
+        "~crlf"
+    } else if head.ends_with(b"\r") {
+        "~cr"
+    } else {
+        ""
+    };
+    format!("{region}{tail}")
+}
+
+/// content class of the part that offset `p` belongs to (its content or the delimiter after it)
+fn class_at(b: &Base, p: usize) -> &'static str {
+    for (i, s) in b.enc.spans.iter().enumerate() {
+        let next = b.enc.spans.get(i + 1).map(|n| n.hdr_start).unwrap_or(usize::MAX);
+        if p < next {
+            return if p >= s.content_start { b.classes[i] } else { "syntax" };
+        }
+    }
+    "syntax"
+}
+
+#[derive(Clone, Debug)]
+struct Sched {
+    /// cut positions inside the fed bytes (sorted, distinct, 0 < c < len)
+    cuts: Vec<usize>,
+    /// 0: Pending before every item; 1: everything ready at once; 2: pattern from `pat`
+    pend_mode: u8,
+    pat: u64,
+    /// insert `n` empty chunks before chunk index k: (k, n)
+    empty_at: Option<(usize, usize)>,
+}
+
+impl Sched {
+    fn whole() -> Self {
+        Sched { cuts: vec![], pend_mode: 0, pat: 0, empty_at: None }
+    }
+    fn cuts(c: Vec<usize>) -> Self {
+        Sched { cuts: c, pend_mode: 0, pat: 0, empty_at: None }
+    }
+}
+
+/// Build the case "feed the first `t` bytes of the body under schedule `s`".
+fn case_of(b: &Base, t: usize, s: &Sched, limit: Option<usize>, modes: Vec<u8>, end_err: bool) -> Case {
+    let e = &b.enc;
+    let t = t.min(e.bytes.len());
+    let body = e.bytes[..t].to_vec();
+    let mut sizes = vec![];
+    let mut prev = 0;
+    for &c in &s.cuts {
+        if c > prev && c < t {
+            sizes.push(c - prev);
+            prev = c;
+        }
+    }
+    if t > prev || sizes.is_empty() {
+        sizes.push(t - prev);
+    }
+    if let Some((k, cnt)) = s.empty_at {
+        let k = k.min(sizes.len());
+        for _ in 0..cnt {
+            sizes.insert(k, 0);
+        }
+    }
+    let pend: Vec<bool> = (0..=sizes.len())
+        .map(|i| match s.pend_mode {
+            0 => true,
+            1 => false,
+            _ => (s.pat >> (i % 64)) & 1 == 1,
+        })
+        .collect();
+    let expect = if end_err {
+        // a body stream that fails must surface as an error unless the parser had already finished
+        if t >= e.close_end {
+            Expect::Either
+        } else {
+            Expect::MustError
+        }
+    } else if t < e.close_end {
+        Expect::MustError
+    } else if t == e.close_end + 1 && t < e.bytes.len() + 1 && e.bytes.len() > e.close_end {
+        // `--B--` followed by a lone CR: neither a complete CRLF nor nothing
+        Expect::Either
+    } else if b.parts.is_empty() && t == e.close_end {
+        // a zero-part body without its CRLF: outside RFC 2046 anyway
+        Expect::Either
+    } else {
+        Expect::Complete
+    };
+    let limit_v = limit.unwrap_or(DEFAULT_LIMIT);
+    Case {
+        ct: b.ct.clone(),
+        body,
+        sizes,
+        pend,
+        end_err,
+        limit,
+        modes,
+        alts: vec![Alt { parts: b.parts.clone(), expect }],
+        overflow_ok: limit_v < b.required,
+        spans: e.spans.clone(),
+        close_end: e.close_end,
+        gap: b.gap,
+        tag: b.tag.clone(),
+        end_label: if t >= e.bytes.len() { "complete".into() } else { format!("trunc@{}", label(b, t)) },
+    }
+}
+
+fn outcome_class(o: &Obs) -> String {
+    match &o.end {
+        End::Clean => "clean".into(),
+        End::Error { kind, in_field } => format!("err:{kind}:{}", if *in_field { "f" } else { "m" }),
+        End::Open => if o.hang { "hang".into() } else { "open".into() },
+        End::Cap(w) => format!("cap:{w}"),
+    }
+}
+
+fn limit_tag(l: Option<usize>) -> String {
+    match l {
+        None => "dflt".into(),
+        Some(x) => x.to_string(),
+    }
+}
+
+/// Evaluate + bookkeeping common to all phases.
+fn eval_sched(b: &Base, t: usize, s: &Sched, limit: Option<usize>, modes: Vec<u8>, end_err: bool, kind: &str, rep: &mut Reporter) {
+    let c = case_of(b, t, s, limit, modes, end_err);
+    let Some(o) = eval(&c, rep) else { return };
+    let mut labels: Vec<String> = s.cuts.iter().filter(|c| **c < t).map(|c| label(b, *c)).collect();
+    labels.sort();
+    labels.dedup();
+    for l in labels.iter().take(8) {
+        rep.count(&format!("cut:{}", l.split('~').next().unwrap_or("")), 1);
+    }
+    if labels.len() > 6 {
+        labels = vec![format!("{}-cut-classes", labels.len())];
+    }
+    let cls: Vec<&str> = {
+        let mut v: Vec<&str> = s.cuts.iter().filter(|c| **c < t).map(|c| class_at(b, *c)).collect();
+        v.push(class_at(b, t.min(b.enc.bytes.len().saturating_sub(1))));
+        v.sort_unstable();
+        v.dedup();
+        v.truncate(4);
+        v
+    };
+    if c.end_label != "complete" {
+        rep.count(&format!("trunc:{}", c.end_label.trim_start_matches("trunc@").split('~').next().unwrap_or("")), 1);
+    }
+    if o.end == (End::Error { kind: "Overflow".into(), in_field: false }) || o.end == (End::Error { kind: "Overflow".into(), in_field: true }) {
+        rep.count(if c.overflow_ok { "overflow:expected(limit<largest unit)" } else { "overflow:other" }, 1);
+    }
+    rep.sig(&format!("{kind}|{}|{}|{}|lim{}|{}", cls.join("+"), labels.join(","), c.end_label, limit_tag(limit), outcome_class(&o)));
+}
+
+// ------------------------------------------------------------------------------------------------
+// Phase A corpus: short bodies (≤ 160 bytes) for the exhaustive cut / truncation enumeration
+
+fn fd_part(name: &str, content: &[u8], cl: bool, class: &'static str) -> Part {
+    let mut headers = vec![("Content-Disposition".to_string(), " ", format!("form-data; name=\"{name}\""))];
+    if cl {
+        headers.push(("Content-Length".to_string(), " ", content.len().to_string()));
+    }
+    Part { headers, name: Some(name.to_string()), content_type: None, content: content.to_vec(), class }
+}
+
+fn mx_part(content: &[u8], cl: bool, class: &'static str) -> Part {
+    let mut headers = vec![("A".to_string(), "", "b".to_string())];
+    if cl {
+        headers.push(("Content-Length".to_string(), "", content.len().to_string()));
+    }
+    Part { headers, name: None, content_type: None, content: content.to_vec(), class }
+}
+
+fn body(boundary: &str, subtype: &'static str, parts: Vec<Part>) -> Body {
+    Body { boundary: boundary.to_string(), subtype, preamble: vec![], parts, final_crlf: true, epilogue: vec![], quote_boundary: false }
+}
+
+fn short_corpus() -> Vec<Base> {
+    let mut v: Vec<Base> = vec![];
+    let mut add = |label: &str, b: Body| {
+        for p in &b.parts {
+            assert!(mg::content_is_legal(&p.content, &b.boundary), "corpus content illegal: {label}");
+        }
+        let base = base_of(&b, label);
+        assert!(base.enc.bytes.len() <= 160, "corpus body {label} is {} bytes", base.enc.bytes.len());
+        v.push(base);
+    };
+    // single form-data field, every content shape the delimiter scanner has to get right
+    let shapes: &[(&str, &[u8], &'static str)] = &[
+        ("empty", b"", "empty"),
+        ("text", b"hello world", "text"),
+        ("cr", b"\r", "ends-cr"),
+        ("a-cr", b"abc\r", "ends-cr"),
+        ("crlf", b"\r\n", "crlf-only"),
+        ("a-crlf", b"abc\r\n", "ends-crlf"),
+        ("dashes", b"--", "ends-dashes"),
+        ("a-dashes", b"abc--", "ends-dashes"),
+        ("crlf-dashes", b"\r\n--", "ends-crlf-dashes"),
+        ("a-crlf-dashes", b"abc\r\n--", "ends-crlf-dashes"),
+        ("a-crlf-dash", b"abc\r\n-", "ends-crlf-dashes"),
+        ("ends-bprefix", b"abc\r\n--bc", "ends-bprefix"),
+        ("has-bprefix", b"ab\r\n--bcXz", "has-bprefix"),
+        ("delim-minus-one", b"ab\r\n--bcez", "delimiter-minus-one"),
+        ("boundary-x", b"q--bcdx\r\nz", "has-boundary-x"),
+        ("lf-dashes-b", b"a\n--bcd\r\nz", "lf-dashes-boundary"),
+        ("crcrcr", b"\r\r\r", "cr-heavy"),
+        ("cr-crlf-dash", b"a\r\r\n-\r\n\r", "cr-heavy"),
+        ("crlfcrlf", b"\r\n\r\n", "ends-crlf"),
+        ("binary", &[0, 255, 13, 10, 45, 45, 0, 13, 13, 10, 1, 2, 128, 10, 13], "binary"),
+        ("starts-crlf-dashes", b"\r\n--b~tail", "starts-crlf-dashes"),
+        ("lf-only", b"a\nb\n", "text"),
+        // bare CR (not CRLF) before the dash-boundary: content per RFC 2046, not a delimiter
+        ("barecr", b"x\r--bcd\r\nq", "cr-dashes-boundary"),
+        ("barecr-close", b"x\r--bcd--", "cr-dashes-boundary"),
+        ("barecr-part", b"x\r--bcd\n--bcd\r\nContent-Disposition: form-data; name=\"e\"\r\n\r\np", "cr-dashes-boundary"),
+    ];
+    for (l, c, class) in shapes {
+        add(&format!("fd1-{l}"), body("bcd", "form-data", vec![fd_part("f", c, false, class)]));
+    }
+    // with Content-Length (read_len path)
+    for (l, c, class) in &shapes[..12] {
+        if matches!(*l, "empty" | "text" | "a-cr" | "crlf" | "a-crlf-dashes" | "ends-bprefix") {
+            add(&format!("fd1cl-{l}"), body("bcd", "form-data", vec![fd_part("f", c, true, class)]));
+        }
+    }
+    // several fields
+    add("fd2", body("b", "form-data", vec![fd_part("a", b"one", false, "text"), fd_part("b", b"two\r", false, "ends-cr")]));
+    add("fd2-empty-first", body("b", "form-data", vec![fd_part("a", b"", false, "empty"), fd_part("b", b"x\r\n--", false, "ends-crlf-dashes")]));
+    add("fd2-cl-first", body("b", "form-data", vec![fd_part("a", b"12\r\n", true, "ends-crlf"), fd_part("b", b"", false, "empty")]));
+    add("fd2-cl-second", body("b", "form-data", vec![fd_part("a", b"--", false, "ends-dashes"), fd_part("b", b"xyz", true, "text")]));
+    let mut b3 = body("b", "form-data", vec![fd_part("a", b"", false, "empty"), fd_part("b", b"\r", false, "ends-cr"), fd_part("c", b"-", false, "text")]);
+    b3.final_crlf = false;
+    add("fd3", b3);
+    add("mx5", body("Zq", "mixed", vec![mx_part(b"1", false, "text"), mx_part(b"", false, "empty"), mx_part(b"\r\n", false, "crlf-only"), mx_part(b"\r\n--Z", false, "ends-bprefix"), mx_part(b"ab", true, "text")]));
+    // zero fields
+    add("fd0", body("bcd", "form-data", vec![]));
+    // preamble / no final CRLF / epilogue
+    let mut b = body("bcd", "form-data", vec![fd_part("f", b"v\r", false, "ends-cr")]);
+    b.preamble = b"pre\r\n--bcd~x\r\n\r\n".to_vec();
+    add("fd1-preamble", b);
+    let mut b = body("bcd", "form-data", vec![fd_part("f", b"v--", false, "ends-dashes")]);
+    b.final_crlf = false;
+    add("fd1-nofinalcrlf", b);
+    let mut b = body("bcd", "form-data", vec![fd_part("f", b"v", false, "text")]);
+    b.epilogue = b"epilogue\r\n--bcd\r\nnot a part".to_vec();
+    add("fd1-epilogue", b);
+    let mut b = body("bcd", "form-data", vec![]);
+    b.preamble = b"p\r\n".to_vec();
+    add("fd0-preamble", b);
+    // boundaries: 1 char, dashes, long, 70 chars
+    add("mx-b1", body("x", "mixed", vec![mx_part(b"a\r\n--", false, "ends-crlf-dashes"), mx_part(b"\r\n-", false, "ends-crlf-dashes")]));
+    add("mx-bdash", body("-", "mixed", vec![mx_part(b"a\r\n--", false, "ends-crlf-dashes"), mx_part(b"--", false, "ends-dashes")]));
+    add("mx-bdashdash", body("--", "mixed", vec![mx_part(b"\r\n---", false, "ends-bprefix"), mx_part(b"-", false, "text")]));
+    add("mx-baaa", body("aaaa", "mixed", vec![mx_part(b"\r\n--aaa", false, "ends-bprefix"), mx_part(b"\r\n--a\r\n--aa", false, "ends-bprefix")]));
+    add("fd1-b30", body("----WebKitFormBoundary7MA4YWxkT", "form-data", vec![fd_part("f", b"\r\n------WebKit", false, "ends-bprefix")]));
+    let b70: String = "0123456789".repeat(7);
+    add("mx-b70", body(&b70, "mixed", vec![mx_part(b"\r", false, "ends-cr")]));
+    let mut b = body("a b", "mixed", vec![mx_part(b"\r\n--a ", false, "ends-bprefix")]);
+    b.quote_boundary = true;
+    add("mx-bquoted", b);
+    // a part with a Content-Type and mixed-case header names
+    let p = Part {
+        headers: vec![
+            ("content-type".into(), " ", "text/plain".into()),
+            ("CONTENT-DISPOSITION".into(), "", "form-data; name=\"n\"; filename=\"x.txt\"".into()),
+        ],
+        name: Some("n".into()),
+        content_type: Some("text/plain".into()),
+        content: b"\r\n-".to_vec(),
+        class: "ends-crlf-dashes",
+    };
+    add("fd1-ctype", body("bcd", "form-data", vec![p]));
+    v
+}
+
+// ------------------------------------------------------------------------------------------------
+// malformed classes (each returns the bytes, the acceptable alternatives and a label)
+
+struct Malformed {
+    base: Base,
+    /// bytes actually fed (the base's encoding with the defect applied)
+    bytes: Vec<u8>,
+    alts: Vec<Alt>,
+    label: &'static str,
+}
+
+pub const MALFORMED: &[&str] = &[
+    "no-content-disposition",
+    "content-disposition-not-form-data",
+    "content-disposition-no-name",
+    "header-line-without-colon",
+    "header-name-with-space",
+    "headers-never-end",
+    "no-boundary-in-body",
+    "wrong-boundary-in-body",
+    "delimiter-with-trailing-garbage",
+    "close-delimiter-missing",
+    "nested-multipart",
+    "bad-content-length-value",
+    "first-boundary-without-crlf",
+];
+
+fn replace_first(hay: &[u8], from: &[u8], to: &[u8]) -> Option<Vec<u8>> {
+    let i = (0..=hay.len().checked_sub(from.len())?).find(|&i| &hay[i..i + from.len()] == from)?;
+    let mut v = hay[..i].to_vec();
+    v.extend_from_slice(to);
+    v.extend_from_slice(&hay[i + from.len()..]);
+    Some(v)
+}
+
+/// Build a malformed body out of a well-formed form-data body with ≥ 2 parts; the defect is put
+/// into part `m` (or the framing after it).  Ground truth: parts before `m` are intact.
+fn malformed(rng: &mut Rng, class: &'static str) -> Option<Malformed> {
+    let (boundary, quoted) = mg::gen_boundary(rng);
+    let n = rng.range(2, 4);
+    let m = rng.below(n);
+    let mut b = Body { boundary: boundary.clone(), subtype: "form-data", preamble: vec![], parts: vec![], final_crlf: rng.chance(3, 4), epilogue: vec![], quote_boundary: quoted };
+    for _ in 0..n {
+        let class = *rng.pick(&["text", "ends-cr", "empty", "ends-crlf-dashes", "binary"]);
+        b.parts.push(mg::gen_part(rng, &boundary, &PartOpts { subtype: "form-data", with_cl: false, class, max_len: 40 }));
+    }
+    let good: Vec<ExpPart> = b.parts.iter().map(exp_part).collect();
+    let before = |k: usize| good[..k].to_vec();
+    let must = |parts: Vec<ExpPart>| Alt { parts, expect: Expect::MustError };
+    let mut alts;
+    match class {
+        "no-content-disposition" => {
+            b.parts[m].headers.retain(|h| !h.0.eq_ignore_ascii_case("content-disposition"));
+            if b.parts[m].headers.is_empty() {
+                b.parts[m].headers.push(("X-Only".into(), " ", "1".into()));
+            }
+            alts = vec![must(before(m))];
+        }
+        "content-disposition-not-form-data" => {
+            for h in b.parts[m].headers.iter_mut() {
+                if h.0.eq_ignore_ascii_case("content-disposition") {
+                    h.2 = h.2.replace("form-data", "attachment");
+                }
+            }
+            alts = vec![must(before(m))];
+        }
+        "content-disposition-no-name" => {
+            for h in b.parts[m].headers.iter_mut() {
+                if h.0.eq_ignore_ascii_case("content-disposition") {
+                    h.2 = "form-data; filename=\"only.bin\"".into();
+                }
+            }
+            alts = vec![must(before(m))];
+        }
+        "header-line-without-colon" | "header-name-with-space" | "headers-never-end" | "nested-multipart" | "bad-content-length-value" => {
+            alts = vec![must(before(m))];
+            match class {
+                "nested-multipart" => {
+                    b.parts[m].headers.retain(|h| !h.0.eq_ignore_ascii_case("content-type"));
+                    b.parts[m].headers.push(("Content-Type".into(), " ", "multipart/mixed; boundary=inner".into()));
+                }
+                "bad-content-length-value" => b.parts[m].headers.push(("Content-Length".into(), " ", (*rng.pick(&["abc", "-1", "1e3", "18446744073709551616"])).into())),
+                _ => {}
+            }
+        }
+        _ => {
+            alts = vec![];
+        }
+    }
+    let base = base_of(&b, class);
+    let e = &base.enc;
+    let mut bytes = e.bytes.clone();
+    match class {
+        "header-line-without-colon" => {
+            let at = e.spans[m].hdr_start;
+            bytes.splice(at..at, b"this line has no colon\r\n".iter().copied());
+        }
+        "header-name-with-space" => {
+            let at = e.spans[m].hdr_start;
+            bytes.splice(at..at, b"Bad Name: v\r\n".iter().copied());
+        }
+        "headers-never-end" => {
+            // drop the blank line of part m and everything after it; pad with header-looking lines
+            bytes.truncate(e.spans[m].content_start - 2);
+            for i in 0..rng.range(0, 5) {
+                bytes.extend_from_slice(format!("X-{i}: y\r\n").as_bytes());
+            }
+        }
+        "no-boundary-in-body" => {
+            bytes = b"just some text\r\nwithout any boundary line\r\n".to_vec();
+            alts = vec![must(vec![])];
+        }
+        "wrong-boundary-in-body" => {
+            let other = format!("{boundary}X");
+            let mut b2 = b.clone();
+            b2.boundary = other;
+            bytes = mg::encode(&b2).bytes;
+            // `--BX` lines never equal `--B` / `--B--` as whole lines ⇒ no part is ever opened
+            alts = vec![must(vec![])];
+        }
+        "delimiter-with-trailing-garbage" => {
+            // the delimiter after part m is followed by junk instead of CRLF / "--"
+            let at = e.spans[m].content_end + 4 + base.blen;
+            let junk: &[u8] = *rng.pick(&[&b"x"[..], &b"-"[..], &b" "[..], &b"-x"[..], &b"\r"[..], &b"\n"[..], &b"--x"[..]]);
+            let junk: &[u8] = if m + 1 == n && junk == b"-" { b"x" } else { junk };
+            bytes.splice(at..at, junk.iter().copied());
+            // RFC 2046: a line that *starts* with the dash-boundary ends the part; what follows is
+            // not a valid delimiter line ⇒ error after the intact part m.  A parser that instead
+            // treats the look-alike as content must then deliver all of it up to the next real
+            // delimiter; that is only distinguishable for m+1 < n, so require the error form only.
+            alts = vec![must(before(m + 1))];
+            if junk == b" " {
+                // transport padding: receivers may (RFC: must) accept it
+                alts.push(Alt { parts: good.clone(), expect: Expect::Either });
+            }
+        }
+        "close-delimiter-missing" => {
+            // body ends with an ordinary delimiter line instead of the close delimiter
+            bytes.truncate(e.close_end - 2);
+            bytes.extend_from_slice(b"\r\n");
+            alts = vec![must(good.clone())];
+        }
+        "first-boundary-without-crlf" => {
+            // `--B` immediately followed by the headers (no line break)
+            bytes = replace_first(&bytes, format!("--{boundary}\r\n").as_bytes(), format!("--{boundary}").as_bytes())?;
+            alts = vec![must(vec![])];
+            // a later delimiter line is still a line `--B`: a parser that skips the "preamble" up
+            // to it legitimately delivers parts 1.. — accept that reading too
+            alts.push(Alt { parts: good[1..].to_vec(), expect: Expect::Either });
+        }
+        _ => {}
+    }
+    if alts.is_empty() {
+        return None;
+    }
+    Some(Malformed { base, bytes, alts, label: class })
+}
+
+fn malformed_case(mf: &Malformed, cuts: &[usize], pend_mode: u8, limit: Option<usize>) -> Case {
+    let mut sizes = vec![];
+    let mut prev = 0;
+    for &c in cuts {
+        if c > prev && c < mf.bytes.len() {
+            sizes.push(c - prev);
+            prev = c;
+        }
+    }
+    sizes.push(mf.bytes.len() - prev);
+    let pend = (0..=sizes.len()).map(|_| pend_mode == 0).collect();
+    Case {
+        ct: mf.base.ct.clone(),
+        body: mf.bytes.clone(),
+        sizes,
+        pend,
+        end_err: false,
+        limit,
+        modes: vec![],
+        alts: mf.alts.clone(),
+        overflow_ok: limit.unwrap_or(DEFAULT_LIMIT) < mf.base.required + 32,
+        spans: vec![],
+        close_end: 0,
+        gap: mf.bytes.len(),
+        tag: format!("malformed:{}", mf.label),
+        end_label: "complete".into(),
+    }
+}
+
+// ------------------------------------------------------------------------------------------------
+// random bodies
+
+fn random_body(rng: &mut Rng, big: bool, tiny_headers: bool, max_blen: usize) -> Body {
+    let (mut boundary, quoted) = mg::gen_boundary(rng);
+    if boundary.len() > max_blen {
+        boundary.truncate(max_blen);
+        if boundary.ends_with(' ') {
+            boundary.pop();
+            boundary.push('y');
+        }
+    }
+    let subtype: &'static str = if tiny_headers { "mixed" } else { *rng.pick(&["form-data", "form-data", "form-data", "mixed", "related"]) };
+    let n = match rng.below(12) {
+        0 => 0,
+        1..=5 => 1,
+        6..=8 => 2,
+        9 => 3,
+        10 => 4,
+        _ => 5,
+    };
+    let mut parts = vec![];
+    for _ in 0..n {
+        let class = *rng.pick(mg::CONTENT_CLASSES);
+        let max_len = if big {
+            *rng.pick(&[200usize, 5_000, 70_000, 150_000])
+        } else {
+            *rng.pick(&[0usize, 8, 40, 300])
+        };
+        let with_cl = rng.chance(1, 4);
+        if tiny_headers {
+            let c = mg::gen_content(rng, class, &boundary, max_len);
+            parts.push(mx_part(&c, with_cl, class));
+        } else {
+            parts.push(mg::gen_part(rng, &boundary, &PartOpts { subtype, with_cl, class, max_len }));
+        }
+    }
+    let preamble = if rng.chance(1, 4) {
+        let p = mg::gen_preamble(rng, &boundary);
+        if mg::preamble_is_legal(&p, &boundary) {
+            p
+        } else {
+            vec![]
+        }
+    } else {
+        vec![]
+    };
+    let final_crlf = rng.chance(3, 4);
+    let epilogue = if final_crlf && rng.chance(1, 5) { b"epilogue text\r\n--not-a-boundary\r\n".to_vec() } else { vec![] };
+    Body { boundary, subtype, preamble, parts, final_crlf, epilogue, quote_boundary: quoted }
+}
+
+/// Positions just around every delimiter / header terminator: where the scanner's lookahead lives.
+fn hot_positions(b: &Base) -> Vec<usize> {
+    let mut v = vec![];
+    let e = &b.enc;
+    for s in &e.spans {
+        for d in 0..(6 + b.blen + 4) {
+            v.push(s.content_end + d);
+        }
+        for d in 0..5 {
+            v.push(s.content_start.saturating_sub(d));
+            v.push(s.content_end.saturating_sub(d));
+        }
+    }
+    for d in 0..(b.blen + 6) {
+        v.push(e.first_boundary + d);
+    }
+    // every CR inside a content
+    for s in &e.spans {
+        let mut n = 0;
+        for p in s.content_start..s.content_end {
+            if e.bytes[p] == b'\r' {
+                for d in 0..5 {
+                    v.push(p + d);
+                }
+                n += 1;
+                if n > 64 {
+                    break;
+                }
+            }
+        }
+    }
+    v.retain(|p| *p > 0 && *p < e.bytes.len());
+    v.sort_unstable();
+    v.dedup();
+    v
+}
+
+fn random_sched(rng: &mut Rng, b: &Base, t: usize, hot: &[usize]) -> (Sched, &'static str) {
+    let style = rng.below(8);
+    let (cuts, name): (Vec<usize>, &'static str) = match style {
+        0 if t <= 6000 => ((1..t).collect(), "1-byte"),
+        0 | 1 => (rng.cuts(t, 8), "random"),
+        2 | 3 => {
+            // cuts aimed at the lookahead windows
+            let mut c = vec![];
+            if !hot.is_empty() {
+                for _ in 0..rng.range(1, 6) {
+                    c.push(*rng.pick(hot));
+                }
+            }
+            c.extend(rng.cuts(t, 2));
+            c.sort_unstable();
+            c.dedup();
+            (c, "aimed")
+        }
+        4 => {
+            // fixed chunk size
+            let sz = *rng.pick(&[2usize, 3, 5, 7, 16, 17, 255, 1024, 4096, 16_384, 65_536, 65_537, 100_000]);
+            ((1..=t / sz).map(|i| i * sz).filter(|c| *c < t).collect(), "fixed-size")
+        }
+        5 => {
+            // a 1-byte run around one hot position, whole otherwise
+            let mut c = vec![];
+            if !hot.is_empty() {
+                let h = *rng.pick(hot);
+                for p in h.saturating_sub(6)..(h + b.blen + 8) {
+                    c.push(p);
+                }
+            }
+            (c, "1-byte-window")
+        }
+        6 => (vec![], "whole"),
+        _ => {
+            let mut c = rng.cuts(t, 40);
+            c.extend(rng.cuts(t, 3));
+            c.sort_unstable();
+            c.dedup();
+            (c, "many")
+        }
+    };
+    let cuts: Vec<usize> = cuts.into_iter().filter(|c| *c > 0 && *c < t).collect();
+    let pend_mode = rng.below(3) as u8;
+    let n = cuts.len() + 1;
+    let s = Sched { cuts, pend_mode, pat: rng.next(), empty_at: if rng.chance(1, 8) { Some((rng.below(n + 1), *rng.pick(&[1usize, 1, 2, 16, 17, 40]))) } else { None } };
+    (s, name)
+}
+
+fn random_modes(rng: &mut Rng, n: usize) -> Vec<u8> {
+    match rng.below(6) {
+        0 => (0..n).map(|_| rng.below(3) as u8).collect(),
+        1 => vec![1; n],
+        _ => vec![],
+    }
+}
+
+// ------------------------------------------------------------------------------------------------
+
+pub fn run(ctx: &Ctx, rep: &mut Reporter) {
+    if let Some(r) = &ctx.replay {
+        let c = case_from(r);
+        eval(&c, rep);
+        rep.sig("replay");
+        return;
+    }
+    let miri = ctx.is_miri();
+
+    // ---- Phase A: exhaustive over the short corpus
+    let corpus = match guard(short_corpus) {
+        Ok(c) => c,
+        Err(p) => {
+            rep.inconclusive(&format!("short corpus self-check failed: {p}"));
+            return;
+        }
+    };
+    rep.max("short_corpus_bodies", corpus.len() as u64);
+    rep.max("short_corpus_longest", corpus.iter().map(|b| b.enc.bytes.len()).max().unwrap_or(0) as u64);
+    let mut idx = 0u64;
+    let mut complete = true;
+    let limits: &[Option<usize>] = &[None, Some(256), Some(16)];
+    'a: for (bi, b) in corpus.iter().enumerate() {
+        if miri && bi % 7 != 0 {
+            continue;
+        }
+        let n = b.enc.bytes.len();
+        for &limit in limits {
+            let tight = limit.unwrap_or(DEFAULT_LIMIT) < b.required;
+            // complete body: whole, all-1-byte (three pend modes), every single cut, every cut pair
+            idx += 1;
+            if ctx.mine(idx) {
+                eval_sched(b, n, &Sched::whole(), limit, vec![], false, "whole", rep);
+                for pm in 0..3u8 {
+                    let s = Sched { cuts: (1..n).collect(), pend_mode: pm, pat: 0x5a5a_5a5a_a5a5_a5a5, empty_at: None };
+                    eval_sched(b, n, &s, limit, vec![], false, "1-byte", rep);
+                }
+                eval_sched(b, n, &Sched::whole(), limit, vec![1; b.parts.len()], false, "whole-skip", rep);
+                let s = Sched { cuts: (1..n).collect(), pend_mode: 0, pat: 0, empty_at: None };
+                eval_sched(b, n, &s, limit, vec![1; b.parts.len()], false, "1-byte-skip", rep);
+                eval_sched(b, n, &s, limit, vec![2; b.parts.len()], false, "1-byte-drop", rep);
+            }
+            // an empty chunk (and a run of 17 ready empty chunks) at every position of the
+            // all-1-byte schedule and of the whole-body schedule
+            for k in 0..=n {
+                idx += 1;
+                if !ctx.mine(idx) || miri {
+                    continue;
+                }
+                for (pm, cnt) in [(0u8, 1usize), (1, 17)] {
+                    let s = Sched { cuts: (1..n).collect(), pend_mode: pm, pat: 0, empty_at: Some((k, cnt)) };
+                    eval_sched(b, n, &s, limit, vec![], false, "1-byte+empty", rep);
+                }
+                if k < 2 {
+                    let s = Sched { cuts: vec![], pend_mode: 0, pat: 0, empty_at: Some((k, 1)) };
+                    eval_sched(b, n, &s, limit, vec![], false, "whole+empty", rep);
+                }
+            }
+            for a in 1..n {
+                idx += 1;
+                if ctx.mine(idx) {
+                    for pm in 0..2u8 {
+                        let s = Sched { cuts: vec![a], pend_mode: pm, pat: 0, empty_at: None };
+                        eval_sched(b, n, &s, limit, vec![], false, "cut1", rep);
+                    }
+                }
+                if miri || (tight && !ctx.thorough()) {
+                    continue;
+                }
+                for c2 in a + 1..n {
+                    idx += 1;
+                    if !ctx.mine(idx) {
+                        continue;
+                    }
+                    if ctx.out_of_time() {
+                        complete = false;
+                        break 'a;
+                    }
+                    eval_sched(b, n, &Sched::cuts(vec![a, c2]), limit, vec![], false, "cut2", rep);
+                }
+            }
+            // every truncation point × {whole, all-1-byte, every single cut (quick: the last 12
+            // positions)} × {EOF after Pending, EOF at once}
+            for t in 0..n {
+                idx += 1;
+                if !ctx.mine(idx) {
+                    continue;
+                }
+                if ctx.out_of_time() {
+                    complete = false;
+                    break 'a;
+                }
+                for pm in 0..2u8 {
+                    let s = Sched { cuts: vec![], pend_mode: pm, pat: 0, empty_at: None };
+                    eval_sched(b, t, &s, limit, vec![], false, "trunc-whole", rep);
+                    let s = Sched { cuts: (1..t).collect(), pend_mode: pm, pat: 0, empty_at: None };
+                    eval_sched(b, t, &s, limit, vec![], false, "trunc-1-byte", rep);
+                }
+                if miri {
+                    continue;
+                }
+                let lo = if ctx.thorough() { 1 } else { t.saturating_sub(12).max(1) };
+                for a in lo..t {
+                    eval_sched(b, t, &Sched::cuts(vec![a]), limit, vec![], false, "trunc-cut1", rep);
+                }
+                // the body stream failing instead of ending, and skipping consumers
+                eval_sched(b, t, &Sched::whole(), limit, vec![], true, "trunc-err", rep);
+                eval_sched(b, t, &Sched::whole(), limit, vec![1; b.parts.len()], false, "trunc-skip", rep);
+            }
+        }
+    }
+    rep.exhaustive("short corpus (<=160 bytes): every single cut, every cut pair, every truncation point (x whole / 1-byte / single cuts) x buffer limits {default,256,16}", complete);
+    if let Some(b) = corpus.get(11) {
+        rep.sample("short-corpus-body", json!({"tag": b.tag, "content_type": b.ct, "body": esc_short(&b.enc.bytes, 200), "largest_unit": b.required}));
+    }
+
+    // ---- Phase B: random bodies × random schedules × random truncations
+    let n = if miri { 6 } else { ctx.share(24_000, 1_400_000) };
+    for k in 0..n {
+        if ctx.out_of_time() {
+            break;
+        }
+        let mut rng = Rng::derive(ctx.seed, 15, k * ctx.nshards + ctx.shard);
+        let big = !miri && rng.chance(1, 40);
+        let limit = *rng.pick(&[None, None, None, Some(16usize), Some(256), Some(1024), Some(65_536)]);
+        let tiny = limit == Some(16) || rng.chance(1, 6);
+        let max_blen = if limit == Some(16) { rng.range(1, 10) } else { 70 };
+        let body = random_body(&mut rng, big, tiny, max_blen);
+        let b = base_of(&body, if big { "rnd-big" } else { "rnd" });
+        let total = b.enc.bytes.len();
+        let hot = hot_positions(&b);
+        rep.count(&format!("bodies:{}-parts", b.parts.len()), 1);
+        for c in &b.classes {
+            rep.count(&format!("content-class:{c}"), 1);
+        }
+        rep.max("largest_body", total as u64);
+        rep.max("longest_boundary", b.blen as u64);
+        let nsched = if big { 2 } else { 4 };
+        for j in 0..nsched {
+            let (s, name) = random_sched(&mut rng, &b, total, &hot);
+            let modes = random_modes(&mut rng, b.parts.len());
+            rep.count(&format!("schedule:{name}"), 1);
+            let kind = if modes.is_empty() { name.to_string() } else { format!("{name}+modes") };
+            eval_sched(&b, total, &s, limit, modes, false, &kind, rep);
+            if k == 0 && j == 0 {
+                rep.sample("random-body", json!({"tag": b.tag, "content_type": b.ct, "body": esc_short(&b.enc.bytes, 400), "cuts": s.cuts.iter().take(20).collect::<Vec<_>>(), "schedule": name, "limit": limit}));
+            }
+        }
+        // truncations: aimed at the hot positions and uniformly random
+        let ntr = if big { 2 } else { 5 };
+        for _ in 0..ntr {
+            let t = if !hot.is_empty() && rng.chance(2, 3) { *rng.pick(&hot) } else { rng.below(total + 1) };
+            let (mut s, name) = random_sched(&mut rng, &b, t, &hot);
+            if rng.chance(1, 2) && t > 1 {
+                // make sure a cut lies shortly before the end
+                s.cuts.push(t - 1 - rng.below(t.min(6) - 1).min(t - 2));
+                s.cuts.sort_unstable();
+                s.cuts.dedup();
+                s.cuts.retain(|c| *c > 0 && *c < t);
+            }
+            let end_err = rng.chance(1, 8);
+            let modes = if rng.chance(1, 6) { random_modes(&mut rng, b.parts.len()) } else { vec![] };
+            eval_sched(&b, t, &s, limit, modes, end_err, &format!("trunc-{name}"), rep);
+        }
+    }
+
+    // ---- Phase C: malformed classes × cuts
+    let n = if miri { 3 } else { ctx.share(8_000, 300_000) };
+    for k in 0..n {
+        if ctx.out_of_time() {
+            break;
+        }
+        let mut rng = Rng::derive(ctx.seed, 16, k * ctx.nshards + ctx.shard);
+        let class = MALFORMED[(k as usize * ctx.nshards as usize + ctx.shard as usize) % MALFORMED.len()];
+        let Some(mf) = malformed(&mut rng, class) else { continue };
+        rep.count(&format!("malformed:{class}"), 1);
+        let len = mf.bytes.len();
+        for j in 0..4 {
+            let cuts: Vec<usize> = match j {
+                0 => vec![],
+                1 => (1..len).collect(),
+                _ => rng.cuts(len, 6),
+            };
+            let limit = if j == 3 { Some(*rng.pick(&[256usize, 1024])) } else { None };
+            let c = malformed_case(&mf, &cuts, (j % 2) as u8, limit);
+            if let Some(o) = eval(&c, rep) {
+                rep.sig(&format!("malformed|{class}|{}|{}|lim{}", j.min(2), outcome_class(&o), limit_tag(limit)));
+            }
+        }
+    }
+
+    // ---- Phase D: bounded buffering under hostile oversize units and large bodies with tiny reads
+    let n = if miri { 0 } else { ctx.share(600, 12_000) };
+    for k in 0..n {
+        if ctx.out_of_time() {
+            break;
+        }
+        let mut rng = Rng::derive(ctx.seed, 17, k * ctx.nshards + ctx.shard);
+        hostile(&mut rng, rep);
+    }
+}
+
+/// A syntactic unit that can never complete inside the configured buffer: the parser must give up
+/// with an error after buffering at most limit + one chunk, not hang and not keep pulling.
+fn hostile(rng: &mut Rng, rep: &mut Reporter) {
+    let limit = *rng.pick(&[None, Some(16usize), Some(256), Some(4096), Some(65_536)]);
+    let l = limit.unwrap_or(DEFAULT_LIMIT);
+    let boundary = if l <= 16 { "Zq".to_string() } else { mg::gen_boundary(rng).0.chars().filter(|c| *c != ' ').take(20).collect::<String>() + "k" };
+    let kind = *rng.pick(&["preamble-line-without-lf", "header-block-without-end", "header-line-endless", "delimiter-line-without-lf", "post-content-line-endless"]);
+    let over = l + rng.range(1, 3) * l + rng.below(500) + 64;
+    let mut bytes: Vec<u8> = vec![];
+    let ok_part = mx_part(b"data", false, "text");
+    let mut parts: Vec<ExpPart> = vec![];
+    match kind {
+        "preamble-line-without-lf" => {
+            bytes.extend((0..over).map(|_| *rng.pick(b"abc \r-")));
+        }
+        "header-block-without-end" => {
+            bytes.extend_from_slice(format!("--{boundary}\r\n").as_bytes());
+            while bytes.len() < over {
+                bytes.extend_from_slice(b"X-H: v\r\n");
+            }
+        }
+        "header-line-endless" => {
+            bytes.extend_from_slice(format!("--{boundary}\r\nX-H: ").as_bytes());
+            bytes.extend((0..over).map(|_| b'v'));
+        }
+        "delimiter-line-without-lf" => {
+            let b = Body { boundary: boundary.clone(), subtype: "mixed", preamble: vec![], parts: vec![ok_part.clone()], final_crlf: false, epilogue: vec![], quote_boundary: false };
+            let e = mg::encode(&b);
+            bytes.extend_from_slice(&e.bytes[..e.close_end - 2]);
+            bytes.extend((0..over).map(|_| b'-'));
+            parts.push(exp_part(&ok_part));
+        }
+        _ => {
+            // Content-Length part followed by an endless "line"
+            let p = mx_part(b"data", true, "text");
+            let b = Body { boundary: boundary.clone(), subtype: "mixed", preamble: vec![], parts: vec![p.clone()], final_crlf: false, epilogue: vec![], quote_boundary: false };
+            let e = mg::encode(&b);
+            bytes.extend_from_slice(&e.bytes[..e.spans[0].content_end]);
+            bytes.extend((0..over).map(|_| b'z'));
+            parts.push(exp_part(&p));
+        }
+    }
+    // then a perfectly good tail, so that "keeps reading" would eventually succeed
+    bytes.extend_from_slice(format!("\r\n--{boundary}\r\nA:b\r\n\r\ntail\r\n--{boundary}--\r\n").as_bytes());
+    let chunk = *rng.pick(&[1usize, 7, 64, 1000, 4096, 30_000]);
+    let chunk = if bytes.len() / chunk > 40_000 { 64 } else { chunk };
+    let mut sizes = vec![];
+    let mut left = bytes.len();
+    while left > 0 {
+        let n = chunk.min(left);
+        sizes.push(n);
+        left -= n;
+    }
+    let pend_mode = rng.below(2) as u8;
+    let pend = (0..=sizes.len()).map(|_| pend_mode == 0).collect();
+    let c = Case {
+        ct: format!("multipart/mixed; boundary={boundary}"),
+        body: bytes,
+        sizes,
+        pend,
+        end_err: false,
+        limit,
+        modes: vec![],
+        // the only acceptable outcome is an error; the fields seen before it are the intact ones
+        alts: vec![Alt { parts, expect: Expect::MustError }],
+        overflow_ok: true,
+        spans: vec![],
+        close_end: 0,
+        // nothing is ever delivered from the oversize unit: it may occupy the buffer, and the intact
+        // syntax before it (at most one tiny part) has been consumed
+        gap: 64 + 2 * boundary.len(),
+        tag: format!("hostile:{kind}"),
+        end_label: "complete".into(),
+    };
+    if let Some(o) = eval(&c, rep) {
+        rep.count(&format!("hostile:{kind}"), 1);
+        rep.max("hostile_pulled_over_limit", o.pulled.saturating_sub(l) as u64);
+        rep.sig(&format!("hostile|{kind}|lim{}|chunk{chunk}|pm{pend_mode}|{}", limit_tag(limit), outcome_class(&o)));
+    }
 }
